@@ -69,7 +69,7 @@ def device_cases(tier, rng):
 def nontrivial(case, out):
     return 'OSpawn' in case or 'OInsert' in case
 
-STAGES = [dict(name='mirror', mode='app', coq='Check.C07c', cases=cases, nontrivial=nontrivial, shard=30,
+STAGES = [dict(name='mirror', mode='app', coq='Check.C07c', profile=('Proofs.JudgeC07P', '(fun sc => JudgeC07P.spawns_declared sc && JudgeC07P.shared_specb sc && JudgeC07P.nonconsumingb sc && JudgeC07P.sites_distinctb sc)', 'C07_app_judgement_sound'), cases=cases, nontrivial=nontrivial, shard=30,
                exhaustive={'thorough': False, 'quick': True},
                rule='two entities x {one exclusive, one shared type}: every sequence of length 2 (quick, 144) / 3 (thorough, 1728) over {insert, remove, despawn, spawn, rebuild, frame} x entity x type; '
                     'random histories (some exclusive instances binding nothing) of 3-20 ops (direct and via Commands) over 2-4 types, 3 entities, 8-30 frames with key presses; exclusive instances with per-entity gamepad settings joining, leaving and being rebuilt next to two gamepads; after every step the lookup is compared with the component, '
